@@ -357,11 +357,16 @@ size_t dataLength, double realPrecision, double valueRangeSize, double medianVal
 				pred = pred - state*interval;
 			}
 			//listAdd_double(last3CmprsData, pred);
+			//double-check the prediction error in case of machine-epsilon impact, as the float kernel does: pred +- state*interval can round
+			//away from the value, and just below the check radius the state can reach intvRadius (code 0 marks an unpredictable value)
+			if(fabs(curData-pred)<=realPrecision && type[i]!=0)
+			{
 #ifdef HAVE_TIMECMPR
-			if(confparams_cpr->szMode == SZ_TEMPORAL_COMPRESSION)
-				decData[i] = pred;
+				if(confparams_cpr->szMode == SZ_TEMPORAL_COMPRESSION)
+					decData[i] = pred;
 #endif
-			continue;
+				continue;
+			}
 		}
 
 		//unpredictable data processing
